@@ -205,7 +205,8 @@ def check(ctx):
             if book_expr is not None:
                 import ast
                 try:
-                    book = ast.literal_eval(book_expr)
+                    from .common import literal_of
+                    book = literal_of(repo, fi.module, book_expr)
                 except Exception:
                     book = {}
             code = vt[1][1][1] if vt[1][1][0] == "c" else None
